@@ -23,7 +23,7 @@ EXPLANATION = (
     "with addBoth after the handle was assigned; the expiry closure assigns a Failure(RequestTimedOutError) that the "
     "on-both handler returns in place of the result; makeRequest has one caller."
 )
-SHARED = [('C10', ['R1', 'R4'], 'after the silent connection is dropped the unanswered requests are re-sent on one new connection'), ('C06', ['R4', 'R5'], 'a reply that arrives after the timeout is discarded without disturbing any other request'), ('C06', ['R6'], 'replies on the wire are framed and delivered by the receiver (nothing in between drops them)')]
+SHARED = [('C06', ['R1'], 'an id still tracked (timed out, awaiting its late reply) is never reused: that reply cannot complete a newer request'), ('C10', ['R1', 'R4'], 'after the silent connection is dropped the unanswered requests are re-sent on one new connection'), ('C06', ['R4', 'R5'], 'a reply that arrives after the timeout is discarded without disturbing any other request'), ('C06', ['R6'], 'replies on the wire are framed and delivered by the receiver (nothing in between drops them)')]
 ASSUMPTIONS = ["reactor.callLater fires once after the delay unless cancelled", "Deferred.addTimeout cancels after the delay"]
 KC = "client:KafkaClient"
 
